@@ -1,6 +1,41 @@
 package main
 
-import "sort"
+import (
+	"sort"
+	"strings"
+)
+
+const libPath = "github.com/matrix-org/gomatrixserverlib"
+
+// libFrames lists the library functions on a stack dump (innermost first, at most 6).
+func libFrames(stack []byte) string {
+	var out []string
+	for _, line := range strings.Split(string(stack), "\n") {
+		if strings.HasPrefix(line, libPath) && !strings.Contains(line, "VerifC19") {
+			if i := strings.LastIndex(line, "("); i > 0 {
+				line = line[:i]
+			}
+			out = append(out, strings.TrimPrefix(strings.TrimPrefix(line, libPath), "/"))
+			if len(out) == 6 {
+				break
+			}
+		}
+	}
+	return "library frames: " + strings.Join(out, " < ")
+}
+
+// innermostLibFunc is the innermost library function on a stack dump ("" if there is none).
+func innermostLibFunc(stack []byte) string {
+	for _, line := range strings.Split(string(stack), "\n") {
+		if strings.HasPrefix(line, libPath) && !strings.Contains(line, "VerifC19") {
+			if i := strings.LastIndex(line, "("); i > 0 {
+				line = line[:i]
+			}
+			return strings.TrimPrefix(strings.TrimPrefix(line, libPath), "/")
+		}
+	}
+	return "none"
+}
 
 func sortedKeys(m map[string]bool) []string {
 	out := make([]string, 0, len(m))
